@@ -55,9 +55,15 @@ package action
 //@   requires[inv]  c != nil && c.BankKeeper != nil
 //@   requires[base] len(fees) <= 5
 //@   requires[base] oneCoin5(fees)
-//@   loop 0 unroll 5
 //@   modifies bank
-//@   ensures[C04]   err == nil ==> bank == pay5(old(bank), core.ModuleAddress, fees)
+//@   loop 0 invariant[C04,C02,C11] bank == payUpTo(old(bank), core.ModuleAddress, fees, idx)
+//@   loop 0 invariant[C01] forall d string :: bal(bank, core.ModuleAddress, d) <= bal(old(bank), core.ModuleAddress, d)
+//@   loop 0 invariant[C01] bankNonneg(old(bank)) ==> bankNonneg(bank)
+//@   ensures[C04,C02,C11]   err == nil ==> bank == pay5(old(bank), core.ModuleAddress, fees)
+//   C01: paying fees never makes the orbiter account gain, and keeps every balance non-negative
+//   (each send is covered by the sender's balance).
+//@   ensures[C01]   err == nil ==> forall d string :: bal(bank, core.ModuleAddress, d) <= bal(old(bank), core.ModuleAddress, d)
+//@   ensures[C01]   err == nil && bankNonneg(old(bank)) ==> bankNonneg(bank)
 
 // The fee attributes a packet carries (cached value of the Any, as the codec unpacked it).
 //@ macro feeAttrsOf(p) = cast(p.Action.Attributes.cachedValue, "*types/controller/action.FeeAttributes")
@@ -76,7 +82,7 @@ package action
 //@   ensures[C04]   err == nil ==> isFeeAttrs(packet) && validFees(fs)
 //@   ensures[C04]   err == nil ==> sum5(A, fs) < A && !isnil(ta.destinationCoin.Amount) && val(ta.destinationCoin.Amount) == A - sum5(A, fs)
 //@   ensures[C04]   err == nil ==> bank == feePay5(old(bank), A, D, fs)
-//@   ensures[C04]   err == nil ==> ta.destinationCoin.Denom == D
+//@   ensures[C04,C01,C02,C11]   err == nil ==> ta.destinationCoin.Denom == D
 //@   ensures[C04]   isFeeAttrs(packet) && validFees(fs) && (sum5(A, fs) >= A || mulOvf5(A, fs)) ==> err != nil && bank == old(bank) && ta.destinationCoin == old(ta.destinationCoin)
 //@   ensures[C04]   !isFeeAttrs(packet) ==> err != nil && bank == old(bank) && ta.destinationCoin == old(ta.destinationCoin)
 
